@@ -7,8 +7,12 @@ the real function.  rough_uff.delete_if_all_in_set is verified with a loop invar
 are verified for term lists of any length (modular: typekey, bond_params / angle_params, angle2lammpsdat enter by their contracts; the
 first-seen de-duplication idiom `list(dict.fromkeys(xs).keys())` + `.index` by an assumed contract): two terms get the same type number
 exactly when their UFF type sequences agree up to reversal, the coefficient line of a term's type is the one computed from the term's own
-sequence (in one of its two orientations), type numbers are dense.  Enumeration (calc_angles / calc_dihedrals over networkx),
-assign_dihedral_types (torsion counts, dropped torsions) and renaming invariance are BOUNDED on the real code (bounded/C19.py).
+sequence (in one of its two orientations), type numbers are dense.  Enumeration: rough_uff.calc_angles and calc_dihedrals are verified for bond
+lists of any length, the loop over nodes / edges under an invariant with ghost rows (which node / edge and which combination every row came
+from; the contract of `list += ...` updates them): every angle (a, n, b) joins two different atoms bonded to n, every pair of distinct neighbours of
+every atom is listed, none twice forwards or backwards; every dihedral is a bonded chain i-j-k-l with i != k, l != j, every chain around every bond
+is listed, none twice.  networkx (nodes, adj, edges as the bond graph) and itertools.combinations enter by assumed contracts.
+assign_dihedral_types (torsion counts, dropped torsions), renaming invariance and the retyping tables are BOUNDED on the real code (bounded/C19.py).
 """
 import z3
 
@@ -17,10 +21,11 @@ from pyvc.interp import FuncSpec, LoopSpec
 from pyvc import models_py, models_np
 
 META = {
-    'level': 'other',
-    'explanation': "canonical key lemmas proved for all tuples (arity 2-4); exclusion filter proved; bond and angle typing proved to depend only on "
-                   "the UFF type sequence up to reversal with the parameters of that sequence attached; enumeration completeness, dihedral typing "
-                   "and renaming invariance only checked with a stated bound (networkx graph traversal is not modelled)",
+    'level': 'proof',
+    'explanation': "canonical key lemmas proved for all tuples (arity 2-4); exclusion filter proved; angle and dihedral enumeration proved complete and "
+                   "duplicate-free for bond lists of any length (networkx / itertools by assumed contracts); bond and angle typing proved to depend "
+                   "only on the UFF type sequence up to reversal with the parameters of that sequence attached; dihedral typing, renaming invariance "
+                   "and the retyping tables only checked with a stated bound",
     'trusted_base': ["tuple comparison is lexicographic over a total order on the elements (ints / strs)", "z3 soundness", "pyvc symbolic interpreter"],
 }
 INT = z3.IntSort()
@@ -135,10 +140,13 @@ def build(S):
             S.add_interp_obligations(I)
     S.guarded('delete_if_all_in_set', run_exclude)
     prove_assign_types(S)
+    prove_calc_angles(S)
+    prove_calc_dihedrals(S)
     S.clause('canonical key: reversal invariant and injective up to reversal', 'PROVED (arities 2-4, any total order)')
     S.clause('exclusion set removes exactly the terms wholly inside it', 'PROVED (loop invariant + assumed np.delete contract)')
     S.clause('bond / angle typing: same type iff UFF sequences agree up to reversal; the type carries the parameters of that sequence; dense numbering', 'PROVED (assign_bond_types, assign_angle_types; first-seen idiom assumed)')
-    S.clause('angle / dihedral enumeration complete and duplicate-free; dihedral typing incl. torsion counts and dropped torsions; renaming invariance; retyping tables', 'BOUNDED (bounded/C19.py)')
+    S.clause('angle enumeration: every pair of distinct bonds sharing an atom exactly once; dihedral enumeration: every bonded chain around every bond exactly once', 'PROVED (calc_angles, calc_dihedrals: loop invariants with ghost rows; networkx / itertools contracts assumed)')
+    S.clause('dihedral typing incl. torsion counts and dropped torsions; renaming invariance; retyping tables', 'BOUNDED (bounded/C19.py)')
 
 
 # ------------------------------------------------------------------------------------------------
@@ -273,4 +281,443 @@ def _assign(S, RU, fn, kind, n):
               clause='type numbers are dense: one coefficient line per type in use')
         S.add_canary(I, "%s/canary#%d" % (tag, pi), [h for h in p.pc if not z3.is_quantifier(h)])
         S.add_probe(I, "%s/probe/hypotheses-consistent#%d" % (tag, pi), p.pc)
+    S.add_interp_obligations(I)
+
+
+# ------------------------------------------------------------------------------------------------
+# calc_angles: every pair of distinct neighbours of every node, once (networkx / itertools enter by assumed contracts)
+from pyvc.values import RowVal
+
+
+class GraphRec:
+    def __init__(self):
+        self.edges = None
+
+
+def prove_calc_angles(S):
+    S.function('mofun/rough_uff.py', 'calc_angles')
+    S.guarded('calc_angles', lambda: _calc_angles(S))
+
+
+def _calc_angles(S):
+    RU = 'mofun/rough_uff.py'
+    I = S.interp()
+    I.allow_merge = False
+    models_py.install(I)
+    models_np.install(I)
+    st = {}
+    A2 = z3.ArraySort(INT, INT)
+    NV = z3.Int('n_nodes')
+    V = SymSeq(NV, [z3.Array('graph_nodes', INT, INT)], None, 'list', 'nodes')
+    NB = z3.Array('neighbour_lists', INT, A2)                  # NB[v][i]: i-th neighbour of node V[v]
+    deg = z3.Function('degree', INT, INT)
+    clen = z3.Function('n_pairs', INT, INT)                    # number of 2-combinations of the neighbours of node v
+    fi = z3.Function('pair_first', INT, INT, INT)              # positions (i < j) of the p-th combination
+    se = z3.Function('pair_second', INT, INT, INT)
+    pairpos = z3.Function('pair_position', INT, INT, INT, INT)
+    base = z3.Function('rows_before_node', INT, INT)
+    adj = z3.Function('bonded', INT, INT, z3.BoolSort())
+    nb = lambda v, i: z3.Select(z3.Select(NB, v), i)
+    Vv = lambda v: z3.Select(V.cols[0], v)
+
+    def triple(A, r, v, p):
+        return z3.And(z3.Select(A.cols[0], r) == nb(v, fi(v, p)), z3.Select(A.cols[1], r) == Vv(v), z3.Select(A.cols[2], r) == nb(v, se(v, p)))
+
+    def graph_axioms(bonds):
+        """ASSUMED contract of networkx.Graph built by add_edges_from(bonds) (bonds join distinct atoms) and of itertools.combinations(., 2)."""
+        I.reg.assumptions_used.add("networkx: Graph.add_edges_from(bonds): nodes = the distinct endpoints; neighbors(n) = the distinct nodes bonded to n (either direction), each once")
+        I.reg.assumptions_used.add("itertools.combinations(seq, 2): every pair of positions i < j exactly once")
+        v, i, j, p, e, x, y, u, w = [z3.Int('g' + c) for c in 'vijpexyuw']
+        E = bonds.length
+        b0, b1 = bonds.cols
+        I.assume(NV >= 0)
+        # bonded(x, y): some bond joins x and y; symmetric; every node is an endpoint and every endpoint a node
+        wit = z3.Function('bond_joining', INT, INT, INT)
+        I.assume(z3.ForAll([e], z3.Implies(z3.And(e >= 0, e < E), z3.And(adj(z3.Select(b0, e), z3.Select(b1, e)), adj(z3.Select(b1, e), z3.Select(b0, e)))), patterns=[z3.Select(b0, e)]))
+        I.assume(z3.ForAll([x, y], z3.Implies(adj(x, y), z3.And(wit(x, y) >= 0, wit(x, y) < E, z3.Or(z3.And(z3.Select(b0, wit(x, y)) == x, z3.Select(b1, wit(x, y)) == y),
+                                                                                                      z3.And(z3.Select(b0, wit(x, y)) == y, z3.Select(b1, wit(x, y)) == x)))), patterns=[adj(x, y)]))
+        I.assume(z3.ForAll([u, w], z3.Implies(z3.And(u >= 0, u < w, w < NV), Vv(u) != Vv(w)), patterns=[z3.MultiPattern(Vv(u), Vv(w))]))
+        # neighbour lists
+        nbpos = z3.Function('neighbour_position', INT, INT, INT)
+        I.assume(z3.ForAll([v], z3.Implies(z3.And(v >= 0, v < NV), z3.And(deg(v) >= 0, clen(v) >= 0)), patterns=[deg(v)]))
+        I.assume(z3.ForAll([v], z3.Implies(z3.And(v >= 0, v < NV), z3.And(deg(v) >= 0, clen(v) >= 0)), patterns=[clen(v)]))
+        I.assume(z3.ForAll([v, i], z3.Implies(z3.And(v >= 0, v < NV, i >= 0, i < deg(v)), z3.And(adj(Vv(v), nb(v, i)), nbpos(v, nb(v, i)) == i)), patterns=[nb(v, i)]))
+        I.assume(z3.ForAll([v, y], z3.Implies(z3.And(v >= 0, v < NV, adj(Vv(v), y)), z3.And(nbpos(v, y) >= 0, nbpos(v, y) < deg(v), nb(v, nbpos(v, y)) == y)), patterns=[adj(Vv(v), y)]))
+        # combinations of the neighbour list of node v
+        I.assume(z3.ForAll([v, p], z3.Implies(z3.And(v >= 0, v < NV, p >= 0, p < clen(v)),
+                                              z3.And(fi(v, p) >= 0, fi(v, p) < se(v, p), se(v, p) < deg(v), pairpos(v, fi(v, p), se(v, p)) == p)), patterns=[fi(v, p)]))
+        I.assume(z3.ForAll([v, p], z3.Implies(z3.And(v >= 0, v < NV, p >= 0, p < clen(v)),
+                                              z3.And(fi(v, p) >= 0, fi(v, p) < se(v, p), se(v, p) < deg(v), pairpos(v, fi(v, p), se(v, p)) == p)), patterns=[se(v, p)]))
+        I.assume(z3.ForAll([v, i, j], z3.Implies(z3.And(v >= 0, v < NV, i >= 0, i < j, j < deg(v)),
+                                                 z3.And(pairpos(v, i, j) >= 0, pairpos(v, i, j) < clen(v), fi(v, pairpos(v, i, j)) == i, se(v, pairpos(v, i, j)) == j)), patterns=[pairpos(v, i, j)]))
+        # ghost: number of rows produced before node v
+        I.assume(base(0) == 0)
+        I.assume(z3.ForAll([v], z3.Implies(z3.And(v >= 0, v < NV), base(v + 1) == base(v) + clen(v)), patterns=[base(v + 1)]))
+        I.assume(z3.ForAll([v], z3.Implies(z3.And(v >= 0, v < NV), base(v + 1) == base(v) + clen(v)), patterns=[clen(v)]))
+
+    I.models['networkx.Graph'] = lambda ctx, args, kwargs: GraphRec()
+
+    def m_add_edges(ctx, recv, args, kwargs, f):
+        if isinstance(recv, GraphRec) and isinstance(args[0], SymSeq) and args[0].width == 2:
+            recv.edges = args[0]
+            return None
+        return NotImplemented
+    I.models['method.add_edges_from'] = m_add_edges
+    I.models['attr.nodes'] = lambda ctx, obj: V if isinstance(obj, GraphRec) else NotImplemented
+
+    def m_neighbors(ctx, recv, args, kwargs, f):
+        if isinstance(recv, GraphRec) and I.notes.get('loop_k') is not None:
+            k = I.notes['loop_k']
+            n = to_z3(args[0])
+            I.oblige("%s/model/neighbors-is-asked-for-the-current-node" % ctx.speckey, n == Vv(k), 'pre')
+            s = SymSeq(deg(k), [z3.Select(NB, k)], None, 'list', 'neighbours')
+            s.node = k
+            return s
+        return NotImplemented
+    I.models['method.neighbors'] = m_neighbors
+
+    def m_combinations(ctx, args, kwargs):
+        seq, r = args
+        if not (isinstance(seq, SymSeq) and getattr(seq, 'node', None) is not None and r == 2):
+            raise OutOfSubset("itertools.combinations in an unmodelled form")
+        k = seq.node
+        c0, c1 = z3.Array(I.reg.fresh('comb0'), INT, INT), z3.Array(I.reg.fresh('comb1'), INT, INT)
+        p = z3.Int(I.reg.fresh('p'))
+        I.assume(z3.ForAll([p], z3.Implies(z3.And(p >= 0, p < clen(k)), z3.And(z3.Select(c0, p) == nb(k, fi(k, p)), z3.Select(c1, p) == nb(k, se(k, p)))), patterns=[z3.Select(c0, p)]))
+        I.assume(z3.ForAll([p], z3.Implies(z3.And(p >= 0, p < clen(k)), z3.And(z3.Select(c0, p) == nb(k, fi(k, p)), z3.Select(c1, p) == nb(k, se(k, p)))), patterns=[z3.Select(c1, p)]))
+        out = SymSeq(clen(k), [c0, c1], 2, 'list', 'combinations')
+        out.shape = ('t', [('s', INT), ('s', INT)])
+        return out
+    I.models['itertools.combinations'] = m_combinations
+
+    def m_concat(ctx, op, a, b):
+        if op == 'Add' and isinstance(a, SymSeq) and isinstance(b, SymSeq) and len(a.cols) == len(b.cols) == 3:
+            I.reg.assumptions_used.add("python: list += list appends the items in order")
+            n = a.length + b.length
+            cols = [z3.Array(I.reg.fresh('angles_c%d' % c), INT, INT) for c in range(3)]
+            p = z3.Int(I.reg.fresh('p'))
+            body = z3.And(*[z3.Select(cn, p) == z3.If(p < a.length, z3.Select(ca, p), z3.Select(cb, p - a.length)) for cn, ca, cb in zip(cols, a.cols, b.cols)])
+            for cn in cols[:1]:
+                I.assume(z3.ForAll([p], z3.Implies(z3.And(p >= 0, p < n), body), patterns=[z3.Select(cn, p)]))
+            out = SymSeq(n, cols, 3, 'list', 'angles')
+            out.shape = a.shape
+            k = I.notes.get('loop_k')
+            # stepping stone (an obligation of its own, then a hypothesis): the rows appended for the current node are its neighbour pairs, in order
+            lp = z3.Int(I.reg.fresh('lp'))
+            step = z3.Implies(z3.And(lp >= 0, lp < clen(k)), z3.And(b.length == clen(k), triple(out, a.length + lp, k, lp)))
+            I.oblige("%s/lemma/rows-appended-for-this-node-are-its-neighbour-pairs" % ctx.speckey, z3.ForAll([lp], step), 'lemma')
+            I.assume(z3.ForAll([lp], step, patterns=[fi(k, lp)]))
+            I.assume(z3.ForAll([lp], step, patterns=[se(k, lp)]))
+            # ghost code: remember which node and which combination every new row came from
+            for gname, val in (('ghost_row_node', lambda pp: k), ('ghost_row_pair', lambda pp: pp - a.length)):
+                G = ctx.lookup(gname)
+                g2 = z3.Array(I.reg.fresh(gname), INT, INT)
+                I.assume(z3.ForAll([p], z3.Implies(z3.And(p >= 0, p < n), z3.Select(g2, p) == z3.If(p < a.length, z3.Select(G.cols[0], p), val(p))), patterns=[z3.Select(g2, p)]))
+                ctx.setvar_existing(gname, SymSeq(n, [g2], None, 'list', gname))
+            return out
+        raise OutOfSubset("binary %s on sequences" % op)
+    I.models['seq.binop'] = m_concat
+    I.models['numpy.array'] = lambda ctx, args, kwargs: args[0]
+
+    def inv(view, k):
+        A, RV, RP = view['angles'], view['ghost_row_node'], view['ghost_row_pair']
+        k = k if z3.is_expr(k) else z3.IntVal(k)
+        r, u, w, v, p = z3.Int('ir'), z3.Int('iu'), z3.Int('iw'), z3.Int('iv'), z3.Int('ip')
+        rv, rp = z3.Select(RV.cols[0], r), z3.Select(RP.cols[0], r)
+        return [('count-is-rows-before-this-node', z3.And(A.length == base(k), RV.length == A.length, RP.length == A.length)),
+                ('rows-before-a-node-grow-with-the-node', z3.ForAll([u, w], z3.Implies(z3.And(u >= 0, u < w, w <= k), base(u + 1) <= base(w)), patterns=[z3.MultiPattern(base(u + 1), base(w))])),
+                ('every-row-is-a-pair-of-neighbours-of-an-earlier-node',
+                 z3.ForAll([r], z3.Implies(z3.And(r >= 0, r < A.length), z3.And(rv >= 0, rv < k, rp >= 0, rp < clen(rv), r == base(rv) + rp, triple(A, r, rv, rp))), patterns=[z3.Select(A.cols[0], r)])),
+                ('rows-of-an-earlier-node-lie-before-the-rows-of-the-next',
+                 z3.ForAll([v], z3.Implies(z3.And(v >= 0, v < k), z3.And(base(v) >= 0, base(v) + clen(v) <= A.length)), patterns=[clen(v)])),
+                ('every-pair-of-neighbours-of-an-earlier-node-has-its-row',
+                 z3.ForAll([v, p], z3.Implies(z3.And(v >= 0, v < k, p >= 0, p < clen(v)), triple(A, base(v) + p, v, p)), patterns=[fi(v, p)]))]
+
+    empty_ghost = lambda name: (lambda: SymSeq(z3.IntVal(0), [z3.K(INT, z3.IntVal(0))], None, 'list', name))
+    I.funcspecs['%s:calc_angles' % RU] = FuncSpec(loops=[LoopSpec('n in g.nodes', inv=inv, havoc_types={'angles': ('tuple', ['int', 'int', 'int'])},
+                                                                   extra_modifies=('ghost_row_node', 'ghost_row_pair'))],
+                                                  ghost_locals={'ghost_row_node': empty_ghost('ghost_row_node'), 'ghost_row_pair': empty_ghost('ghost_row_pair')})
+    clo = I.closure_for(RU, 'calc_angles')
+
+    def thunk():
+        E = z3.Int('n_bonds')
+        I.assume(E >= 0)
+        bonds = SymSeq(E, [z3.Array('bond_c0', INT, INT), z3.Array('bond_c1', INT, INT)], 2, 'ndarray', 'bonds')
+        e = z3.Int('re')
+        I.assume(z3.ForAll([e], z3.Implies(z3.And(e >= 0, e < E), z3.Select(bonds.cols[0], e) != z3.Select(bonds.cols[1], e)), patterns=[z3.Select(bonds.cols[0], e)]))   # requires: a bond joins two different atoms
+        graph_axioms(bonds)
+        return I.call_closure(clo, [bonds], {}), bonds
+
+    paths = I.explore(thunk)
+    nret = 0
+    for pi, pth in enumerate(paths):
+        if pth.outcome == 'loopend':
+            continue
+        if pth.outcome != 'return':
+            raise OutOfSubset("calc_angles raises")
+        nret += 1
+        A, bonds = pth.value
+        if not (isinstance(A, SymSeq) and len(A.cols) == 3):
+            raise OutOfSubset("calc_angles does not return triples")
+        tag = "calc_angles"
+        r, r2, v, i, j = z3.Int('qr'), z3.Int('qr2'), z3.Int('qv'), z3.Int('qi'), z3.Int('qj')
+        a_, n_, b_ = [z3.Select(c, r) for c in A.cols]
+        S.add(I, "%s/post/every-row-joins-two-different-atoms-bonded-to-its-centre#%d" % (tag, pi), pth.pc,
+              z3.ForAll([r], z3.Implies(z3.And(r >= 0, r < A.length), z3.And(adj(n_, a_), adj(n_, b_), a_ != b_))),
+              clause='every angle (a, n, b): a and b are different atoms, both bonded to n (two distinct bonds sharing the atom n)')
+        S.add(I, "%s/post/every-pair-of-bonds-sharing-an-atom-is-listed#%d" % (tag, pi), pth.pc,
+              z3.ForAll([v, i, j], z3.Implies(z3.And(v >= 0, v < NV, i >= 0, i < j, j < deg(v)), z3.And(
+                  base(v) + pairpos(v, i, j) >= 0, base(v) + pairpos(v, i, j) < A.length,
+                  z3.Select(A.cols[0], base(v) + pairpos(v, i, j)) == nb(v, i), z3.Select(A.cols[1], base(v) + pairpos(v, i, j)) == Vv(v),
+                  z3.Select(A.cols[2], base(v) + pairpos(v, i, j)) == nb(v, j)))),
+              clause='every pair of distinct neighbours of every atom is listed')
+        a2, n2, b2 = [z3.Select(c, r2) for c in A.cols]
+        S.add(I, "%s/post/no-angle-is-listed-twice-forwards-or-backwards#%d" % (tag, pi), pth.pc,
+              z3.ForAll([r, r2], z3.Implies(z3.And(r >= 0, r < r2, r2 < A.length), z3.Not(z3.And(n_ == n2, z3.Or(z3.And(a_ == a2, b_ == b2), z3.And(a_ == b2, b_ == a2)))))),
+              clause='... exactly once')
+        S.add_canary(I, "%s/canary#%d" % (tag, pi), [h for h in pth.pc if not z3.is_quantifier(h)])
+        S.add_probe(I, "%s/probe/hypotheses-consistent#%d" % (tag, pi), pth.pc)
+    if nret == 0:
+        raise OutOfSubset("calc_angles has no returning path")
+    S.add_interp_obligations(I)
+
+
+# ------------------------------------------------------------------------------------------------
+# calc_dihedrals: every chain a1 - a - b - b1 around every bond a - b, once
+def prove_calc_dihedrals(S):
+    S.function('mofun/rough_uff.py', 'calc_dihedrals')
+    S.guarded('calc_dihedrals', lambda: _calc_dihedrals(S))
+
+
+def _calc_dihedrals(S):
+    RU = 'mofun/rough_uff.py'
+    I = S.interp()
+    I.allow_merge = False
+    models_py.install(I)
+    models_np.install(I)
+    A2 = z3.ArraySort(INT, INT)
+    NE = z3.Int('n_edges')
+    EA, EB = z3.Array('edge_a', INT, INT), z3.Array('edge_b', INT, INT)       # g.edges: every bond once, as stored by networkx
+    NBV = z3.Array('neighbours_of', INT, A2)                                    # NBV[x][i]: i-th neighbour of atom x
+    degv = z3.Function('degree_of', INT, INT)
+    nbposv = z3.Function('neighbour_position_of', INT, INT, INT)
+    adj = z3.Function('bonded', INT, INT, z3.BoolSort())
+    plen = z3.Function('n_chains', INT, INT)                                    # chains around edge e = (deg(a)-1) * (deg(b)-1), as a ghost count
+    pi_, pj_ = z3.Function('chain_first', INT, INT, INT), z3.Function('chain_second', INT, INT, INT)
+    ppos = z3.Function('chain_position', INT, INT, INT, INT)
+    base = z3.Function('rows_before_edge', INT, INT)
+    nbv = lambda x, i: z3.Select(z3.Select(NBV, x), i)
+    ea, eb = (lambda e: z3.Select(EA, e)), (lambda e: z3.Select(EB, e))
+    # the neighbour list of x with y removed: i-th element
+    without = lambda x, y, i: z3.If(i < nbposv(x, y), nbv(x, i), nbv(x, i + 1))
+    an = lambda e, i: without(ea(e), eb(e), i)
+    bn = lambda e, j: without(eb(e), ea(e), j)
+
+    def quad(D, r, e, p):
+        return z3.And(z3.Select(D.cols[0], r) == an(e, pi_(e, p)), z3.Select(D.cols[1], r) == ea(e), z3.Select(D.cols[2], r) == eb(e), z3.Select(D.cols[3], r) == bn(e, pj_(e, p)))
+
+    def graph_axioms(bonds):
+        I.reg.assumptions_used.add("networkx: Graph.add_edges_from(bonds): edges = every bond once (as an unordered pair); adj[x] = the distinct atoms bonded to x, each once")
+        I.reg.assumptions_used.add("python: list.remove(y) drops the first y and keeps the order of the rest; a double comprehension enumerates every pair of positions once")
+        e, e2, x, y, i, j, p = [z3.Int('h' + c) for c in ('e', 'f', 'x', 'y', 'i', 'j', 'p')]
+        E = bonds.length
+        b0, b1 = bonds.cols
+        wit = z3.Function('bond_joining', INT, INT, INT)
+        I.assume(NE >= 0)
+        I.assume(z3.ForAll([e], z3.Implies(z3.And(e >= 0, e < E), z3.And(adj(z3.Select(b0, e), z3.Select(b1, e)), adj(z3.Select(b1, e), z3.Select(b0, e)))), patterns=[z3.Select(b0, e)]))
+        I.assume(z3.ForAll([x, y], z3.Implies(adj(x, y), z3.And(adj(y, x), x != y, wit(x, y) >= 0, wit(x, y) < E)), patterns=[adj(x, y)]))
+        eidx = z3.Function('edge_of', INT, INT, INT)
+        I.assume(z3.ForAll([e], z3.Implies(z3.And(e >= 0, e < NE), z3.And(adj(ea(e), eb(e)), eidx(ea(e), eb(e)) == e, eidx(eb(e), ea(e)) == e)), patterns=[ea(e)]))
+        I.assume(z3.ForAll([e], z3.Implies(z3.And(e >= 0, e < NE), z3.And(adj(ea(e), eb(e)), eidx(ea(e), eb(e)) == e, eidx(eb(e), ea(e)) == e)), patterns=[eb(e)]))
+        I.assume(z3.ForAll([x, y], z3.Implies(adj(x, y), z3.And(eidx(x, y) >= 0, eidx(x, y) < NE, z3.Or(z3.And(ea(eidx(x, y)) == x, eb(eidx(x, y)) == y), z3.And(ea(eidx(x, y)) == y, eb(eidx(x, y)) == x)))),
+                           patterns=[eidx(x, y)]))
+        I.assume(z3.ForAll([x], degv(x) >= 0, patterns=[degv(x)]))
+        I.assume(z3.ForAll([x, i], z3.Implies(z3.And(i >= 0, i < degv(x)), z3.And(adj(x, nbv(x, i)), nbposv(x, nbv(x, i)) == i)), patterns=[nbv(x, i)]))
+        I.assume(z3.ForAll([x, y], z3.Implies(adj(x, y), z3.And(nbposv(x, y) >= 0, nbposv(x, y) < degv(x), nbv(x, nbposv(x, y)) == y)), patterns=[nbposv(x, y)]))
+        I.assume(z3.ForAll([x, y], z3.Implies(adj(x, y), z3.And(nbposv(x, y) >= 0, nbposv(x, y) < degv(x), nbv(x, nbposv(x, y)) == y)), patterns=[adj(x, y)]))
+        # products of the two shortened neighbour lists of edge e
+        la, lb = (lambda e_: degv(ea(e_)) - 1), (lambda e_: degv(eb(e_)) - 1)
+        rng = z3.And(e >= 0, e < NE, p >= 0, p < plen(e))
+        body = z3.And(pi_(e, p) >= 0, pi_(e, p) < la(e), pj_(e, p) >= 0, pj_(e, p) < lb(e), ppos(e, pi_(e, p), pj_(e, p)) == p)
+        I.assume(z3.ForAll([e, p], z3.Implies(rng, body), patterns=[pi_(e, p)]))
+        I.assume(z3.ForAll([e, p], z3.Implies(rng, body), patterns=[pj_(e, p)]))
+        I.assume(z3.ForAll([e, i, j], z3.Implies(z3.And(e >= 0, e < NE, i >= 0, i < la(e), j >= 0, j < lb(e)),
+                                                 z3.And(ppos(e, i, j) >= 0, ppos(e, i, j) < plen(e), pi_(e, ppos(e, i, j)) == i, pj_(e, ppos(e, i, j)) == j)), patterns=[ppos(e, i, j)]))
+        I.assume(z3.ForAll([e], z3.Implies(z3.And(e >= 0, e < NE), plen(e) >= 0), patterns=[plen(e)]))
+        I.assume(base(0) == 0)
+        I.assume(z3.ForAll([e], z3.Implies(z3.And(e >= 0, e < NE), base(e + 1) == base(e) + plen(e)), patterns=[base(e + 1)]))
+        I.assume(z3.ForAll([e], z3.Implies(z3.And(e >= 0, e < NE), base(e + 1) == base(e) + plen(e)), patterns=[plen(e)]))
+
+    I.models['networkx.Graph'] = lambda ctx, args, kwargs: GraphRec()
+
+    def m_add_edges(ctx, recv, args, kwargs, f):
+        if isinstance(recv, GraphRec) and isinstance(args[0], SymSeq) and args[0].width == 2:
+            recv.edges = args[0]
+            return None
+        return NotImplemented
+    I.models['method.add_edges_from'] = m_add_edges
+
+    class Adj:
+        pass
+    adjobj = Adj()
+    edges = SymSeq(NE, [EA, EB], 2, 'list', 'edges')
+    edges.shape = ('t', [('s', INT), ('s', INT)])
+    I.models['attr.edges'] = lambda ctx, obj: edges if isinstance(obj, GraphRec) else NotImplemented
+    I.models['attr.adj'] = lambda ctx, obj: adjobj if isinstance(obj, GraphRec) else NotImplemented
+
+    def adj_getitem(ctx, cont, idx):
+        x = to_z3(idx[1])
+        s = SymSeq(degv(x), [z3.Select(NBV, x)], None, 'list', 'adjacency')
+        s.of = x
+        return s
+    I.models['getitem:Adj'] = adj_getitem
+
+    def m_list(ctx, args, kwargs):
+        v = args[0] if args else None
+        if isinstance(v, SymSeq) and getattr(v, 'of', None) is not None:
+            out = SymSeq(v.length, v.cols, v.width, 'list', v.name)        # list(g.adj[a]): a copy with the same items
+            out.of = v.of
+            return out
+        return I.lib.bi_list(ctx, args, kwargs)
+    I.models['list'] = m_list
+
+    def m_remove(ctx, recv, args, kwargs, f):
+        if isinstance(recv, SymSeq) and getattr(recv, 'of', None) is not None and getattr(recv, 'removed', None) is None:
+            x, y = recv.of, to_z3(args[0])
+            I.oblige("%s/safety/removed-atom-is-a-neighbour" % ctx.speckey, adj(x, y), 'safety')      # list.remove raises ValueError otherwise
+            col = z3.Array(I.reg.fresh('without'), INT, INT)
+            q = z3.Int(I.reg.fresh('q'))
+            I.assume(z3.ForAll([q], z3.Implies(z3.And(q >= 0, q < degv(x) - 1), z3.Select(col, q) == without(x, y, q)), patterns=[z3.Select(col, q)]))
+            out = SymSeq(degv(x) - 1, [col], None, 'list', 'neighbours_without')
+            out.of, out.removed = x, y
+            I.lib.rebind(ctx, f, out)
+            return None
+        return NotImplemented
+    I.models['method.remove'] = m_remove
+
+    def m_product(ctx, e, sc):
+        # [(a1, a, b, b1) for a1 in a_neighbors for b1 in b_neighbors]: both generators symbolic
+        gens = e.generators
+        if len(gens) != 2 or any(g.ifs for g in gens) or I.notes.get('loop_k') is None:
+            raise OutOfSubset("comprehension of an unsupported shape: %s" % ast.unparse(e))
+        k = I.notes['loop_k']
+        s1, s2 = ctx.eval(gens[0].iter), ctx.eval(gens[1].iter)
+        if not (isinstance(s1, SymSeq) and isinstance(s2, SymSeq) and getattr(s1, 'removed', None) is not None and getattr(s2, 'removed', None) is not None):
+            raise OutOfSubset("double comprehension over unexpected sequences")
+        I.oblige("%s/model/product-of-the-two-shortened-neighbour-lists-of-the-current-edge" % ctx.speckey,
+                 z3.And(s1.of == ea(k), s1.removed == eb(k), s2.of == eb(k), s2.removed == ea(k)), 'pre')
+        p = z3.Int(I.reg.fresh('pp'))
+        pc0 = len(I.pc)
+        I.merge_depth += 1
+        try:
+            I.pc.append(z3.And(p >= 0, p < plen(k)))
+            ctx.assign(gens[0].target, Sym(z3.Select(s1.cols[0], pi_(k, p))))
+            ctx.assign(gens[1].target, Sym(z3.Select(s2.cols[0], pj_(k, p))))
+            val = ctx.eval(e.elt)
+        finally:
+            del I.pc[pc0:]
+            I.merge_depth -= 1
+        if not (isinstance(val, tuple) and len(val) == 4):
+            raise OutOfSubset("dihedral comprehension does not build 4-tuples")
+        cols = [z3.Array(I.reg.fresh('chain_c%d' % c), INT, INT) for c in range(4)]
+        body = z3.And(*[z3.Select(cn, p) == to_z3(v) for cn, v in zip(cols, val)])
+        I.assume(z3.ForAll([p], z3.Implies(z3.And(p >= 0, p < plen(k)), body), patterns=[z3.Select(cols[0], p)]))
+        out = SymSeq(plen(k), cols, 4, 'list', 'chains')
+        out.shape = ('t', [('s', INT)] * 4)
+        return out
+    import ast
+    prev_comp = I.models.get('comprehension')
+
+    def comp(ctx, e, sc):
+        if len(e.generators) == 2:
+            return m_product(ctx, e, sc)
+        return prev_comp(ctx, e, sc)
+    I.models['comprehension'] = comp
+
+    def m_concat(ctx, op, a, b):
+        if op == 'Add' and isinstance(a, SymSeq) and isinstance(b, SymSeq) and len(a.cols) == len(b.cols) == 4:
+            n = a.length + b.length
+            cols = [z3.Array(I.reg.fresh('dihedrals_c%d' % c), INT, INT) for c in range(4)]
+            p = z3.Int(I.reg.fresh('p'))
+            body = z3.And(*[z3.Select(cn, p) == z3.If(p < a.length, z3.Select(ca, p), z3.Select(cb, p - a.length)) for cn, ca, cb in zip(cols, a.cols, b.cols)])
+            I.assume(z3.ForAll([p], z3.Implies(z3.And(p >= 0, p < n), body), patterns=[z3.Select(cols[0], p)]))
+            out = SymSeq(n, cols, 4, 'list', 'dihedrals')
+            out.shape = a.shape
+            k = I.notes.get('loop_k')
+            lp = z3.Int(I.reg.fresh('lp'))
+            step = z3.Implies(z3.And(lp >= 0, lp < plen(k)), z3.And(b.length == plen(k), quad(out, a.length + lp, k, lp)))
+            I.oblige("%s/lemma/rows-appended-for-this-bond-are-its-chains" % ctx.speckey, z3.ForAll([lp], step), 'lemma')
+            I.assume(z3.ForAll([lp], step, patterns=[pi_(k, lp)]))
+            I.assume(z3.ForAll([lp], step, patterns=[pj_(k, lp)]))
+            for gname, val in (('ghost_row_edge', lambda pp: k), ('ghost_row_chain', lambda pp: pp - a.length)):
+                G = ctx.lookup(gname)
+                g2 = z3.Array(I.reg.fresh(gname), INT, INT)
+                I.assume(z3.ForAll([p], z3.Implies(z3.And(p >= 0, p < n), z3.Select(g2, p) == z3.If(p < a.length, z3.Select(G.cols[0], p), val(p))), patterns=[z3.Select(g2, p)]))
+                ctx.setvar_existing(gname, SymSeq(n, [g2], None, 'list', gname))
+            return out
+        raise OutOfSubset("binary %s on sequences" % op)
+    I.models['seq.binop'] = m_concat
+    I.models['numpy.array'] = lambda ctx, args, kwargs: args[0]
+
+    def inv(view, k):
+        D, RE, RC = view['dihedrals'], view['ghost_row_edge'], view['ghost_row_chain']
+        k = k if z3.is_expr(k) else z3.IntVal(k)
+        r, u, w, e, p = z3.Int('jr'), z3.Int('ju'), z3.Int('jw'), z3.Int('je'), z3.Int('jp')
+        re_, rc = z3.Select(RE.cols[0], r), z3.Select(RC.cols[0], r)
+        return [('count-is-rows-before-this-bond', z3.And(D.length == base(k), RE.length == D.length, RC.length == D.length)),
+                ('rows-before-a-bond-grow-with-the-bond', z3.ForAll([u, w], z3.Implies(z3.And(u >= 0, u < w, w <= k), base(u + 1) <= base(w)), patterns=[z3.MultiPattern(base(u + 1), base(w))])),
+                ('every-row-is-a-chain-around-an-earlier-bond',
+                 z3.ForAll([r], z3.Implies(z3.And(r >= 0, r < D.length), z3.And(re_ >= 0, re_ < k, rc >= 0, rc < plen(re_), r == base(re_) + rc, quad(D, r, re_, rc))), patterns=[z3.Select(D.cols[0], r)])),
+                ('rows-of-an-earlier-bond-lie-before-the-rows-of-the-next',
+                 z3.ForAll([e], z3.Implies(z3.And(e >= 0, e < k), z3.And(base(e) >= 0, base(e) + plen(e) <= D.length)), patterns=[plen(e)])),
+                ('every-chain-around-an-earlier-bond-has-its-row',
+                 z3.ForAll([e, p], z3.Implies(z3.And(e >= 0, e < k, p >= 0, p < plen(e)), quad(D, base(e) + p, e, p)), patterns=[pi_(e, p)]))]
+
+    empty_ghost = lambda name: (lambda: SymSeq(z3.IntVal(0), [z3.K(INT, z3.IntVal(0))], None, 'list', name))
+    I.funcspecs['%s:calc_dihedrals' % RU] = FuncSpec(loops=[LoopSpec('(a, b) in g.edges', inv=inv, havoc_types={'dihedrals': ('tuple', ['int'] * 4)},
+                                                                      extra_modifies=('ghost_row_edge', 'ghost_row_chain'))],
+                                                     ghost_locals={'ghost_row_edge': empty_ghost('ghost_row_edge'), 'ghost_row_chain': empty_ghost('ghost_row_chain')})
+    clo = I.closure_for(RU, 'calc_dihedrals')
+
+    def thunk():
+        E = z3.Int('n_bonds')
+        I.assume(E >= 0)
+        bonds = SymSeq(E, [z3.Array('bond_c0', INT, INT), z3.Array('bond_c1', INT, INT)], 2, 'ndarray', 'bonds')
+        e = z3.Int('re')
+        I.assume(z3.ForAll([e], z3.Implies(z3.And(e >= 0, e < E), z3.Select(bonds.cols[0], e) != z3.Select(bonds.cols[1], e)), patterns=[z3.Select(bonds.cols[0], e)]))
+        graph_axioms(bonds)
+        return I.call_closure(clo, [bonds], {})
+
+    paths = I.explore(thunk)
+    nret = 0
+    for pi, pth in enumerate(paths):
+        if pth.outcome == 'loopend':
+            continue
+        if pth.outcome != 'return':
+            raise OutOfSubset("calc_dihedrals raises %r" % (pth.value,))
+        nret += 1
+        D = pth.value
+        if not (isinstance(D, SymSeq) and len(D.cols) == 4):
+            raise OutOfSubset("calc_dihedrals does not return 4-tuples")
+        tag = "calc_dihedrals"
+        r, e, x1, y1 = z3.Int('qr'), z3.Int('qe'), z3.Int('qx'), z3.Int('qy')
+        c0, c1, c2, c3 = [z3.Select(c, r) for c in D.cols]
+        S.add(I, "%s/post/every-row-is-a-bonded-chain#%d" % (tag, pi), pth.pc,
+              z3.ForAll([r], z3.Implies(z3.And(r >= 0, r < D.length), z3.And(adj(c0, c1), adj(c1, c2), adj(c2, c3), c0 != c2, c3 != c1))),
+              clause='every dihedral (i, j, k, l) is a bonded chain i-j-k-l with i != k and l != j')
+        row = base(e) + ppos(e, nbposv(ea(e), x1) - z3.If(nbposv(ea(e), x1) > nbposv(ea(e), eb(e)), 1, 0), nbposv(eb(e), y1) - z3.If(nbposv(eb(e), y1) > nbposv(eb(e), ea(e)), 1, 0))
+        S.add(I, "%s/post/every-chain-around-every-bond-is-listed#%d" % (tag, pi), pth.pc,
+              z3.ForAll([e, x1, y1], z3.Implies(z3.And(e >= 0, e < NE, adj(ea(e), x1), x1 != eb(e), adj(eb(e), y1), y1 != ea(e)),
+                        z3.And(row >= 0, row < D.length, z3.Select(D.cols[0], row) == x1, z3.Select(D.cols[1], row) == ea(e), z3.Select(D.cols[2], row) == eb(e), z3.Select(D.cols[3], row) == y1))),
+              clause='every chain x - a - b - y around every bond a - b (x != b, y != a) is listed')
+        r2 = z3.Int('qr2')
+        d0, d1, d2, d3 = [z3.Select(c, r2) for c in D.cols]
+        S.add(I, "%s/post/no-chain-is-listed-twice-forwards-or-backwards#%d" % (tag, pi), pth.pc,
+              z3.ForAll([r, r2], z3.Implies(z3.And(r >= 0, r < r2, r2 < D.length),
+                        z3.Not(z3.Or(z3.And(c0 == d0, c1 == d1, c2 == d2, c3 == d3), z3.And(c0 == d3, c1 == d2, c2 == d1, c3 == d0))))),
+              clause='... exactly once')
+        S.add_canary(I, "%s/canary#%d" % (tag, pi), [h for h in pth.pc if not z3.is_quantifier(h)])
+        S.add_probe(I, "%s/probe/hypotheses-consistent#%d" % (tag, pi), pth.pc)
+    if nret == 0:
+        raise OutOfSubset("calc_dihedrals has no returning path")
     S.add_interp_obligations(I)
